@@ -143,6 +143,11 @@ def np_zeros(ex, st, args, kw, node):
     return st.new_ref(ArrC(z3.K(I, z3.RealVal(0)), to_z3(n) if not isinstance(n, int) else z3.IntVal(n), None), 'zeros')
 
 
+def np_ones(ex, st, args, kw, node):
+    n = args[0]
+    return st.new_ref(ArrC(z3.K(I, z3.RealVal(1)), to_z3(n) if not isinstance(n, int) else z3.IntVal(n), None), 'ones')
+
+
 def np_zeros_like(ex, st, args, kw, node):
     c = _content(st, args[0])
     return st.new_ref(ArrC(z3.K(I, z3.RealVal(0)), c.n, None), 'zeros_like')
@@ -235,7 +240,7 @@ def value_any(ex, st, args, kw, node):
 
 NUMPY = {
     'np.abs': np_abs, 'np.absolute': np_abs, 'np.isnan': np_isnan, 'np.argmax': np_argmax, 'np.max': np_max,
-    'np.array': np_array, 'np.ravel': np_ravel, 'np.put': np_put, 'np.zeros': np_zeros, 'np.zeros_like': np_zeros_like,
+    'np.array': np_array, 'np.ravel': np_ravel, 'np.put': np_put, 'np.zeros': np_zeros, 'np.ones': np_ones, 'np.zeros_like': np_zeros_like,
     'np.ones_like': np_ones_like, 'np.any': np_any, 'np.all': np_all, 'np.arange': np_arange,
     'np.less': _elementwise_cmp(ast.Lt()), 'np.less_equal': _elementwise_cmp(ast.LtE()),
     'np.greater': _elementwise_cmp(ast.Gt()), 'np.greater_equal': _elementwise_cmp(ast.GtE()),
@@ -262,6 +267,19 @@ NUMPY['<value>.lower'] = str_lower
 
 
 def np_isclose(ex, st, args, kw, node):
+    ca, cb = _content(st, args[0]), _content(st, args[1])
+    if ca is not None or cb is not None:
+        # element-wise (one operand may be a scalar); NaN-tracked arrays are not supported here
+        if any(c is not None and c.nans is not None for c in (ca, cb)):
+            raise Unsupported('np.isclose on NaN-tracked arrays')
+        rt, at = as_real(kw.get('rtol', 1e-05)).val, as_real(kw.get('atol', 1e-08)).val
+        k = fresh('k', I)
+        x = ca.vals[k] if ca is not None else as_real(args[0]).val
+        y = cb.vals[k] if cb is not None else as_real(args[1]).val
+        d_ = x - y
+        cond = z3.If(d_ >= 0, d_, -d_) <= at + rt * z3.If(y >= 0, y, -y)
+        n = ca.n if ca is not None else cb.n
+        return st.new_ref(ArrC(z3.Lambda([k], z3.If(cond, z3.RealVal(1), z3.RealVal(0))), n, None, kind='bool'), 'isclose')
     a, b = as_real(args[0]), as_real(args[1])
     rtol = as_real(kw.get('rtol', 1e-05)).val
     atol = as_real(kw.get('atol', 1e-08)).val
